@@ -44,7 +44,9 @@ PROPS = {
                    # sub-messages emitted from every entry point (instantiate, migrate, sudo, reply …) by native and
                    # ContractWrapper-lifted contracts, with the sender observable in the invocation trace and bank dumps
                    {"name": "wasm", "quick": 4000, "thorough": 40000, "predicate": "pred_c05", "nontrivial": "nt_wasm"},
-                   {"name": "wasm-admin", "quick": 2000, "thorough": 20000, "predicate": "pred_c12", "nontrivial": "nt_any"}],
+                   {"name": "wasm-admin", "quick": 2000, "thorough": 20000, "predicate": "pred_c12", "nontrivial": "nt_any"},
+                   # staking / distribution kinds reaching the REAL StakeKeeper / DistributionKeeper from users and contracts
+                   {"name": "wasm-stk", "quick": 2000, "thorough": 40000, "predicate": "pred_c05", "nontrivial": "nt_any"}],
         "rule": _RULE,
         "trusted_base": ROUTE_TB,
         "assumptions": ["R3: query kinds are those the Router has a module slot for; Custom(Empty) cannot be lifted"],
